@@ -14,11 +14,14 @@ def run(ctx):
     nmon, classes = A.monitors(ctx, rows, "C09")
     ctx.cov["monitor_findings"] = classes
     ctx.evaluations = sum(len(r["steps"]) for r in rows)
-    ctx.distinct = len({(r["id"], i) for r in rows for i, s in enumerate(r["steps"]) if s["op"] in ("tick", "reobs") and s.get("fwd")})
+    ctx.distinct = len({(r["id"], i) for r in rows for i, s in enumerate(r["steps"])
+                        if (s["op"] == "poll" and (s.get("batch") or len(s.get("pages", [])) > 1 or s.get("res") not in ("idle", "batch"))) or (s["op"] == "tick" and s.get("fwd"))})
+    ctx.cov["polls_with_events_landing_after_the_count"] = sum(1 for r in rows for s in r["steps"] if s["op"] == "poll" and s.get("res") == "batch" and s["cnt"] is not None and s["newfrom"] > s["cnt"])
+    ctx.cov["polls_with_several_pages"] = sum(1 for r in rows for s in r["steps"] if s["op"] == "poll" and len(s.get("pages", [])) > 1)
     ctx.rule = ("random chain histories against the simulated node (blocks orphaned / re-included, heights advancing, stalling and jumping, events of the governance contract, "
                 "of foreign senders and look-alike events of other contracts in the same transaction, attestations against 21 token-contract answer shapes (each call failing, wrong arity, wrong type, out-of-range decimals, wrong result count, API error), levels 0..255, events landing between count and page requests, page sizes 1..100, "
-                "API errors at each call, both networks); evaluations = steps executed on the real watcher code; distinct non-trivial = steps (height tick / re-observation) "
-                "in which at least one message was forwarded")
+                "API errors at each call, both networks); evaluations = steps executed on the real watcher code; distinct non-trivial = polls that fetched a non-empty batch, needed several pages or ended "
+                "abnormally, plus height ticks that forwarded at least one message; in addition free-running scenarios of the real Watcher.Run")
     ctx.samples = [{"history": r["id"], "step": s} for r in rows[:40] for s in r["steps"] if s.get("fwd")][:4]
     n, bad = A.model_compare(ctx, "cases_C09", rows, ignore_reobs_fwd=True)
     if bad is None:
